@@ -41,6 +41,14 @@ PROPS = {
         real=['event::CommonLoop timer heap, getWaitTime/handleExpiredTimers', 'TimerEventImpl', 'eventx::TimerPool', 'EpollLoop / SelectLoop', 'base::Cabinet', 'base::ObjectPool (poisoned when parked)'],
         stub=['monotonic clock (virtual, whole milliseconds)', 'epoll_wait/select blocking (late wake-ups and EINTR injected)'],
     ),
+    'C03': dict(
+        harness='c03_fdevents',
+        title='Descriptor events',
+        flavours=dict(asan=dict(quick_s=30, thorough_s=600)),
+        mode='single',
+        real=['EpollLoop + EpollFdEvent + shared per-descriptor records', 'SelectLoop + SelectFdEvent', 'base::ObjectPool (poisoned when parked)', 'kernel epoll/select on real AF_UNIX socket pairs'],
+        stub=['the peer of every socket pair (driver)', 'blocking in epoll_wait/select (probe + virtual time; subset-of-ready-events and EINTR injected)'],
+    ),
 }
 
 NOT_APPLICABLE = {
@@ -52,4 +60,4 @@ NOT_APPLICABLE = {
 
 # planned in DESIGN.md §7 but whose harness is not built yet — not claimed until it is
 PENDING = {p: 'harness not built yet (planned in DESIGN.md §7); not claimed until the check exists' for p in
-           ['C03', 'C04', 'C06', 'C09', 'C11', 'C12', 'C13', 'C14', 'C15', 'C17', 'C18', 'C20']}
+           ['C04', 'C06', 'C09', 'C11', 'C12', 'C13', 'C14', 'C15', 'C17', 'C18', 'C20']}
